@@ -51,6 +51,12 @@ class A2:
         self.sites = atomic_sites(facts)
         self.release_prims = {s["body"].did for s in self.sites if s["obj"] == "refcount" and s["method"] == "fetch_sub"}
         self.inc_sites = {(s["body"].did, s["bb"]) for s in self.sites if s["obj"] == "refcount" and s["method"] == "fetch_add"}
+        # how many references an increment mints: the literal added (anything else counts as "not one": reported through the balance)
+        self.inc_amount = {}
+        for s in self.sites:
+            if s["obj"] == "refcount" and s["method"] == "fetch_add":
+                a = canon(s["args"][1]) if len(s["args"]) > 1 else None
+                self.inc_amount[(s["body"].did, s["bb"])] = a[1] if isinstance(a, tuple) and a and a[0] == "const" and isinstance(a[1], int) else 2
         self.summ = {}
         self.ret_variants = {}      # did -> {event vector: set of returned variants ("Some", "None", "Ok", "Err", "true", "false", None = unknown)}
         self.path_cache = {}
@@ -146,7 +152,7 @@ class A2:
         p = res["path"]
         targ0 = (fn.get("args") or [""])[0] if fn.get("args") else ""
         if (b.did, bi) in self.inc_sites:
-            ev["inc"] += 1
+            ev["inc"] += self.inc_amount.get((b.did, bi), 1)
         elif p == "alloc::boxed::Box::<T>::from_raw" and self.is_cb(targ0):
             a = eb.operand(t["args"][0], loc)
             fresh = any(x[0] == "call" and x[1] == "alloc::boxed::Box::<T>::into_raw" for x in walk(a))
@@ -551,6 +557,9 @@ def run(facts):
                         probs.append("clone initialises a count of %s (must be 2: the existing handle and the new one)" % inits(v))
                     if not ok_static and minted != 1:
                         probs.append("clone mints %d references (must be exactly 1)" % minted)
+                    if not ok_static and get(v, "inc") and get(v, "hout") < 1:
+                        probs.append("clone increments the count but the handle it returns does not carry the incoming control block (%s): the minted reference is "
+                                     "never given back" % vec_str(v))
                     if get(v, "fresh") and not (get(v, "inc") == 1 and get(v, "dtor") == 0):
                         probs.append("losing the publication race must free only its own block and increment the winner's count")
                 elif sn in ("drop", "into_vec", "into_mut"):
